@@ -357,4 +357,4 @@ LEVEL_NOTE = "under construction"
 EXPLANATION = "under construction"
 ASSUMPTIONS = []
 TRUSTED = []
-BOUNDED = []
+BOUNDED = [{"name": "restricted-and-registered-types", "script": "bounded/b20_scalar_types.py"}]
